@@ -34,13 +34,14 @@ Steps:
    `cd {work} && PYTHONPATH={work} /venv/bin/python -m pytest -q -p no:cacheprovider --timeout=900 --continue-on-collection-errors > {work}/SEEDED/fullsuite.log 2>&1`.
    About 25 tests fail even on the unchanged tree in this environment (pandas 3 read_json, spark, mlflow, distributed
    dask, rest gateway, test_importer, test_codec, service dispatch...). To tell which failures are yours, compare against
-   the unchanged tree for the SAME test ids (`git stash; run the failing ids; git stash pop`). Your change must not add
-   failures.
+   the unchanged tree for the SAME test ids. NEVER use `git stash` (it is shared between worktrees of other people): to run
+   without your change do `git diff -- forml > SEEDED/patch.diff; git apply -R SEEDED/patch.diff; <run>; git apply
+   SEEDED/patch.diff`. Your change must not add failures.
 3. Write a demonstration {work}/SEEDED/demo.py: a standalone script (run as
    `cd {work} && PYTHONPATH={work} /venv/bin/python SEEDED/demo.py`) that exercises the public behaviour the property talks
    about, prints what it observed, and exits with status 1 (printing a line starting with FAIL) when the property is
-   violated and 0 (printing PASS) when it holds. It must FAIL with your change and PASS without it (verify both with
-   `git stash` / `git stash pop`). It must finish in under 2 minutes and clean up anything it creates under /tmp.
+   violated and 0 (printing PASS) when it holds. It must FAIL with your change and PASS without it (verify both, using
+   `git apply -R SEEDED/patch.diff` / `git apply SEEDED/patch.diff`, never git stash). It must finish in under 2 minutes and clean up anything it creates under /tmp.
 4. Save `git diff -- forml > {work}/SEEDED/patch.diff` and write {work}/SEEDED/notes.md: which clause of the property breaks,
    what exactly is needed for it to manifest, why existing tests do not notice, which tests you ran and their outcome.
 5. Do NOT commit. Leave the change applied in the worktree. Final answer: <= 15 lines summarising the change, what it
